@@ -43,7 +43,7 @@ using ::babylon::Epoch;
 using Accessor = ::babylon::Epoch::Accessor;
 
 constexpr uint64_t kMargin = 2000;   // cycles; every cross-thread ordering claim keeps this distance
-constexpr size_t kMaxRegions = 4096; // per table slot and episode
+constexpr size_t kMaxRegions = 1024; // per table slot and episode
 
 struct World;
 struct Reclaimer {
@@ -121,7 +121,7 @@ struct World {
   GC* gc = nullptr;
   size_t ntasks = 0;
   std::unique_ptr<Task[]> tasks;
-  std::vector<std::unique_ptr<TableSlot>> table;  // one per retirer + holder
+  std::vector<TableSlot*> table;  // one per retirer + holder (pooled across episodes: big allocations are slow under TSan)
   std::atomic<uint64_t> retire_seq {0}, retired_done {0};
   std::atomic<int> across_open {0}, across_closed {0};
   std::atomic<bool> stop_called {false}, finish {false}, fatal {false};
@@ -411,15 +411,24 @@ void run_episode(uint64_t seed, uint64_t index) {
   c.reader_pct = int(r.pick<int>({0, 30, 80}));
   c.sleep_cap_us = int(r.pick<int>({0, 0, 30, 300}));
   c.close_delay_us = int(r.pick<int>({0, 100, 2000, 15000}));
-  c.pin = int(r.pick<int>({0, 0, 0, 1, 2}));
+  c.pin = int(r.pick<int>({0, 0, 0, 0, 2, 3}));
   c.policy = vf::draw_policy(r, kStallPoints, 40, 12000);
   w.ntasks = size_t(total);
   w.tasks.reset(new Task[w.ntasks]);
   int nthreads = c.retirers + c.holders;
+  static std::vector<TableSlot*> pool;
   for (int i = 0; i < nthreads; ++i) {
-    w.table.emplace_back(new TableSlot);
-    w.table.back()->log.resize(kMaxRegions);
-    w.table.back()->note.assign(kMaxRegions + 1, 0);
+    if (pool.size() <= size_t(i)) {
+      pool.push_back(new TableSlot);
+      pool.back()->log.resize(kMaxRegions);
+      pool.back()->note.assign(kMaxRegions + 1, 0);
+    }
+    TableSlot* ts = pool[size_t(i)];
+    for (uint64_t k = 0; k < ts->next_serial; ++k) { ts->log[k] = RegionRec {}; ts->note[k + 1] = 0; }
+    ts->next_serial = 0;
+    ts->open_serial.store(0, std::memory_order_relaxed);
+    ts->exit_begun.store(0, std::memory_order_relaxed);
+    w.table.push_back(ts);
   }
   g_sleep_cap_us.store(c.sleep_cap_us, std::memory_order_relaxed);
   w.gc = new GC;
@@ -437,6 +446,8 @@ void run_episode(uint64_t seed, uint64_t index) {
     holders.emplace_back([&w, es, me, i] { vf::thread_begin(es, me); holder_role(w, me, i); vf::thread_end(); });
   }
   for (auto& t : retirers) t.join();
+  const bool verbose = vf::args().get("verbose", 0) != 0;
+  if (verbose) fprintf(stderr, "[c10]   %.3f retirers joined\n", vf::now_s());
   bool all_retired = w.retired_done.load(std::memory_order_relaxed) == w.ntasks;
   if (!c.across) {
     if (c.dtor || r.chance(1, 2)) {
@@ -453,6 +464,7 @@ void run_episode(uint64_t seed, uint64_t index) {
   if (c.dtor) { delete w.gc; w.gc = nullptr; }
   else w.gc->stop();
   w.stop_ret = vf::stamp_ret();
+  if (verbose) fprintf(stderr, "[c10]   %.3f stop returned\n", vf::now_s());
   vf::set_op(nullptr);
   vf::progress();
   // ---- exactly-once at the return of stop()/destructor
@@ -471,7 +483,7 @@ void run_episode(uint64_t seed, uint64_t index) {
   vf::watchdog().arm(false);
   // ---- classify missing invocations
   std::vector<const RegionRec*> regs;
-  for (auto& ts : w.table) for (uint64_t s = 0; s < ts->next_serial; ++s) regs.push_back(&ts->log[s]);
+  for (TableSlot* ts : w.table) for (uint64_t s = 0; s < ts->next_serial; ++s) regs.push_back(&ts->log[s]);
   if (!lost.empty()) {
     size_t known_shape = 0, other = 0;
     std::string d_known, d_other;
@@ -571,6 +583,7 @@ void run_episode(uint64_t seed, uint64_t index) {
                        (unsigned long)w.held_back.load(), regs.size(), lost.size()), 4);
   }
   g_world = nullptr;
+  if (verbose) fprintf(stderr, "[c10]   %.3f episode done\n", vf::now_s());
 }
 
 // Minimal deterministic-shape reproduction of the DESIGN §6 drop (used in the notes): one region, one retire, stop().
@@ -582,8 +595,9 @@ int run_repro() {
     w.tasks.reset(new Task[1]);
     w.tasks[0].payload = 5;
     GC gc;
+    gc.set_queue_capacity(4);              // with the default capacity 1 the marker can never share a batch with a task
     gc.start();
-    vf::raw_sleep_us(300);                 // collector finds the queue empty and sleeps ~1 ms
+    while (g_in_backoff.load() == 0) ::sched_yield();  // collector found the queue empty and sleeps >= 1 ms
     Accessor a = gc.epoch().create_accessor();
     a.lock();                              // region open ...
     gc.retire(Reclaimer {&w, 0});          // ... blocks this reclaimer
@@ -636,7 +650,7 @@ int main(int argc, char** argv) {
                    (unsigned long)w->invoked.load(), w->across_open.load(), w->across_closed.load(), g_in_backoff.load());
   };
   wd.start();
-  uint64_t n = vf::budget(500, 12000);
+  uint64_t n = vf::budget(260, 8000);
   for (uint64_t e = 0; e < n; ++e) {
     if (a.only_episode >= 0 && uint64_t(a.only_episode) != e) continue;
     run_episode(a.seed, e);
